@@ -284,6 +284,8 @@ class ExecNode:
 
     def _conf_to_values(self, conf: Dict[str, Any]) -> Dict[str, Any]:
         values = dataclasses.asdict(self)
+        # asdict recursively turns dataclasses into dicts: a DAG used as the function of an ExecNode is one
+        values["exec_function"] = deepcopy(self.exec_function)
         # copy the values of ExecNode that are also dataclass
         values["args"] = self.args
         values["kwargs"] = self.kwargs
